@@ -31,7 +31,8 @@ using namespace vf;
 using namespace Clipper2Lib;
 
 static gen::GpCounters g_gc;
-static uint64_t g_solhash = 0;
+static uint64_t g_solhash = 0, g_canhash = 0;
+static bool g_hashing = false;
 static const int kTransExp[] = { 2, 8, 16, 24, 32, 40, 46, 52, 56, 58, 60 };
 
 // ------------------------------------------------------------------ executing the library
@@ -50,7 +51,10 @@ static bool run(const Paths64& S, const Paths64& C, int ct, int fr, bool pc, Pat
     default: clipper.AddSubject(S); clipper.AddClip(C); break;
   }
   bool ok = clipper.Execute((ClipType)ct, (FillRule)fr, sol);
-  g_solhash = g_solhash * 0x100000001b3ull + hash_paths(sol);   // diagnostic only (--solhash 1): all raw solutions, in order
+  if (g_hashing) {   // diagnostic only (--solhash 1): all solutions, raw and canonical, in execution order
+    g_solhash = g_solhash * 0x100000001b3ull + hash_paths(sol);
+    g_canhash = g_canhash * 0x100000001b3ull + hash_paths(canon_paths(sol));
+  }
   return ok;
 }
 
@@ -452,8 +456,10 @@ void vf_case(Ctx& ctx, uint64_t i) {
 
 void vf_replay(Ctx& ctx, const Case& c) { judge(ctx, c, true); }
 
+void vf_begin(Ctx& ctx) { g_hashing = ctx.optint("solhash", 0) != 0; }
+
 void vf_end(Ctx& ctx) {
   ctx.count("gp_candidates_tried", g_gc.tries);
   ctx.count("gp_candidates_rejected", g_gc.rejected);
-  if (ctx.optint("solhash", 0)) ctx.info("solhash_shard" + std::to_string(ctx.shard), "\"" + std::to_string(g_solhash) + "\"");
+  if (g_hashing) ctx.info("solhash_shard" + std::to_string(ctx.shard), "\"raw " + std::to_string(g_solhash) + " canonical " + std::to_string(g_canhash) + "\"");
 }
